@@ -301,6 +301,10 @@ func Generate(r *gen.Rng) *Schema {
 		{Named: "numSet", Rel: "atomic"},
 		// overrides on multi-member atoms (preserve-unknown-fields + map-type atomic): the map member is overridden
 		{Named: "__untyped_deduced_", Rel: "atomic"}, {Named: "__untyped_atomic_", Rel: "separable"},
+		// the same named types referenced with the *other* override (spelling out what the type says itself), so
+		// that one schema can hold two references to one named type with different overrides
+		{Named: "numSet", Rel: "associative"}, {Named: "atomicList", Rel: "atomic"}, {Named: "point", Rel: "separable"},
+		{Named: "strMap", Rel: "separable"}, {Named: "itemList", Rel: "associative"}, {Named: "atomicPoint", Rel: "atomic"},
 	}
 	nf := 5 + r.Intn(6)
 	var fields []Field
